@@ -114,7 +114,7 @@ func TestParseLibTextOfExpectedStrings(t *testing.T) {
 		}
 	}
 	for _, bad := range []string{``, `'`, `JSON_ARRAY(1,2`, `JSON_ARRAY(1,2))`, `JSON_OBJECT('a')`, `'abc'`, `CAST(CAST('x' AS FOO) AS JSON)`,
-		`CAST(CAST('2015-01-15' AS DATE) AS JSON) `, `JSON_ARRAY(1,,2)`, `'1.5'`, `'"a"b"'`} {
+		`CAST(CAST('2015-01-15' AS DATE) AS JSON) `, `JSON_ARRAY(1,,2)`, `'1.5.2'`, `'1,5'`, `'"a"b"'`} {
 		if n, err := ParseLibText([]byte(bad)); err == nil {
 			t.Errorf("ParseLibText(%q) accepted: %+v", bad, n)
 		}
@@ -433,5 +433,37 @@ func TestSmallLargeThreshold(t *testing.T) {
 	want := []byte{3, 3, 0, 0, 0, 23, 0, 0, 0, 7, 0xa0, 0x86, 1, 0, 5, 0xff, 0xff, 0xff, 0xff, 4, 1, 0, 0, 0}
 	if !bytes.Equal(b, want) {
 		t.Errorf("large [100000,-1,true] = %v", b)
+	}
+}
+
+// a double may be printed in any decimal form; an integer may not be printed as something else
+func TestDoubleForms(t *testing.T) {
+	for _, c := range []struct {
+		want *Node
+		text string
+		ok   bool
+	}{
+		{&Node{Kind: KDouble, F: 0.5}, `JSON_ARRAY(5E-01)`, true},
+		{&Node{Kind: KDouble, F: 0.5}, `JSON_ARRAY(0.5)`, true},
+		{&Node{Kind: KDouble, F: 0.5}, `JSON_ARRAY(5e-1)`, true},
+		{&Node{Kind: KDouble, F: 3}, `JSON_ARRAY(3)`, true},
+		{&Node{Kind: KDouble, F: 3}, `JSON_ARRAY(3.0)`, true},
+		{&Node{Kind: KDouble, F: 3}, `JSON_ARRAY(4)`, false},
+		{&Node{Kind: KDouble, F: math.Copysign(0, -1)}, `JSON_ARRAY(-0)`, true},
+		{&Node{Kind: KDouble, F: math.Copysign(0, -1)}, `JSON_ARRAY(0)`, false},
+		{&Node{Kind: KDouble, F: 1e300}, `JSON_ARRAY(1E+300)`, true},
+		{&Node{Kind: KDouble, F: 0.1}, `JSON_ARRAY(0.10000000000000002)`, false},
+		{&Node{Kind: KInt, I: 3}, `JSON_ARRAY(3E+00)`, false},
+		{&Node{Kind: KInt, I: 3}, `JSON_ARRAY(3.0)`, false},
+		{&Node{Kind: KInt, I: 3}, `JSON_ARRAY(3)`, true},
+	} {
+		g, err := ParseLibText([]byte(c.text))
+		if err != nil {
+			t.Fatalf("%s: %v", c.text, err)
+		}
+		ok, why := Equal(arr(c.want), g)
+		if ok != c.ok {
+			t.Errorf("%s against %s: equal=%v (%s), want %v", c.text, describe(c.want), ok, why, c.ok)
+		}
 	}
 }
